@@ -115,12 +115,11 @@ structure CellOKL (c : Cell) (n : Nat) : Prop where
 theorem CellOKL.toOK {c : Cell} {n : Nat} (h : CellOKL c n) : CellOK c (Dict.keys c.values) n where
   pos := h.pos
   vals := h.vals
-  full := fun h2 => ⟨by
-    intro he
+  full := fun h2 => by
     have := h.ne h2
     cases hv : c.values with
-    | nil => exact this hv
-    | cons a t => rw [hv] at he; simp [Dict.keys] at he, fun f hf => hf⟩
+    | nil => exact absurd hv this
+    | cons a t => exact ⟨a.1, by simp [Dict.keys], by simp [Dict.keys]⟩
   nodup := h.nodup
 
 theorem fieldDictPure_self {c : Cell} {n : Nat} (h : CellOKL c n) {i : Nat} (hi : i < n) :
